@@ -186,6 +186,14 @@ func getObjPrototype() *Value {
 							return nil, err
 						}
 
+						// only the object's own keys count: a name that is only
+						// found on the prototype (length, pluck) is an absent key
+						if this.Tag == ValueObj {
+							if _, own := (*this.Obj)[value.String()]; !own {
+								val = nil
+							}
+						}
+
 						if val == nil {
 							_, err = newObj.SetMember(*value, NewCell(NewValue(nil)))
 						} else {
